@@ -110,7 +110,7 @@ package graphql
 //@   at[C20] call resolveFn: assert arg0.Info.ParentType == parentType
 //@   at[C20] call resolveFn: assert arg0.Info.ReturnType == fp.returnType
 //@   at[C20] call resolveFn: assert arg0.Info.RootValue == eCtx.Root && arg0.Info.Operation == eCtx.Operation && arg0.Info.VariableValues == eCtx.VariableValues && arg0.Info.FieldASTs == fp.fieldASTs
-//@   at[C20,C06] call resolveFn: assert fresh(arg0.Args) || fp.args.hasVariables
+//@   at[C20,C06,C12] call resolveFn: assert fresh(arg0.Args) || fp.args.hasVariables
 //@   ensures[C04] resolveFnError != nil ==> result == nil
 //@   ensures[C04] ok
 
